@@ -154,6 +154,32 @@ def build_shss_ref(flavour, outdir):
     return out
 
 
+def build_phazr_ref(flavour, outdir):
+    """Stand-in libphazr.so.1 (verif-owned) placed next to the flavour's libs."""
+    cc, cflags, ldflags = flavour_flags(flavour)
+    libdir = os.path.join(outdir, flavour, "lib")
+    src = os.path.join(VERIF, "phazr_ref", "phazr_ref.c")
+    out = os.path.join(libdir, "libphazr.so.1")
+    san = [f for f in cflags if not f.startswith("-DINTEL") and not f.startswith("-m")]
+    run([cc, "-std=gnu99", "-fPIC", "-shared", "-Wl,-soname,libphazr.so.1"] + san +
+        ["-o", out, src] + ldflags)
+    return out
+
+
+def build_jer_ref(flavour, outdir):
+    """Clean-room stand-in libJerasure.so.2 (verif-owned) placed next to the flavour's libs."""
+    cc, cflags, ldflags = flavour_flags(flavour)
+    libdir = os.path.join(outdir, flavour, "lib")
+    src = os.path.join(VERIF, "jer_ref", "jer_ref.c")
+    out = os.path.join(libdir, "libJerasure.so.2")
+    san = [f for f in cflags if not f.startswith("-DINTEL") and not f.startswith("-m")]
+    # -z nodelete: the stand-in builds its field tables on first use; were it unmapped and mapped again at the same
+    # address, ThreadSanitizer would pair accesses to the two incarnations of those tables and report a race
+    run([cc, "-std=gnu99", "-fPIC", "-shared", "-Wl,-soname,libJerasure.so.2", "-Wl,-z,nodelete"] + san +
+        ["-o", out, src] + ldflags + ["-lpthread"])
+    return out
+
+
 def build_driver(flavour, outdir, name, sources, extra_cflags=(), extra_ld=()):
     """Compile a harness driver (C) against the flavour's liberasurecode.so."""
     cc, cflags, ldflags = flavour_flags(flavour)
